@@ -73,10 +73,22 @@ type sandbox struct {
 	lines  chan []byte
 	stderr *bytes.Buffer
 	dead   chan struct{}
+	bad    int // cases that hung or crashed (confirmed)
 }
 
+// after this many confirmed hangs or crashes the remaining cases are not run (each would cost three deadlines); they are
+// marked "notrun" and the runner leaves them out of the validation - the run is a failing one already
+const maxBadCases = 8
+
 func newSandbox(family string, fam *Family) *sandbox {
-	return &sandbox{family: family, fam: fam}
+	s := &sandbox{family: family, fam: fam}
+	// the count is shared by the driver runs of one check (VERIF_BADFILE, set by the runner)
+	if p := os.Getenv("VERIF_BADFILE"); p != "" {
+		if b, err := os.ReadFile(p); err == nil {
+			s.bad, _ = strconv.Atoi(strings.TrimSpace(string(b)))
+		}
+	}
+	return s
 }
 
 func (s *sandbox) start() {
@@ -177,12 +189,24 @@ func (s *sandbox) once(c map[string]interface{}, deadline time.Duration) ([]Even
 }
 
 func (s *sandbox) run(c map[string]interface{}) []Event {
+	if s.bad >= maxBadCases {
+		return []Event{{"ev": "notrun", "out": "notrun"}}
+	}
 	dl := time.Duration(s.fam.DeadlineMS) * time.Millisecond
 	if dl == 0 {
 		dl = defaultDeadlineMS * time.Millisecond
 	}
 	evs, outc := s.once(c, dl)
 	if outc == "" {
+		// a case that reports that the real code stopped making progress counts like a hang (and its child, which still
+		// holds the stuck goroutines, is replaced)
+		for _, e := range evs {
+			if h, ok := e["hang"].(bool); ok && h {
+				s.kill()
+				s.countBad()
+				break
+			}
+		}
 		return evs
 	}
 	// confirm in a fresh child, alone, with twice the deadline: a loaded machine
@@ -193,5 +217,13 @@ func (s *sandbox) run(c map[string]interface{}) []Event {
 		fmt.Fprintf(os.Stderr, "sandbox: outcome %q not reproduced, using second run\n", outc)
 		return evs2
 	}
+	s.countBad()
 	return []Event{{"ev": "outcome", "out": outc2}}
+}
+
+func (s *sandbox) countBad() {
+	s.bad++
+	if p := os.Getenv("VERIF_BADFILE"); p != "" {
+		os.WriteFile(p, []byte(strconv.Itoa(s.bad)), 0o644)
+	}
 }
